@@ -34,6 +34,11 @@ import (
 const retryChildName = "sqlite-retry-child"
 const retryLinePrefix = "VRETRY "
 
+// retryClaimAtomicOnly (child argument claim=atomic, part argument retry_claim=atomic) weakens the
+// oracle to "whole events, each at most once": an acknowledged event that is lost after one or
+// two failing attempts is then only counted, not reported. Default: it is reported.
+var retryClaimAtomicOnly bool
+
 const ruleC14Retry = "real handler in a synctest bubble (virtual time): for every script × target event × j ∈ {0..3} failing attempts × failing call kind (begin, each prepare, each exec kind, commit) × mode " +
 	"(error on an in-memory database, lost connection on a file database): every EVENT is answered by an accepting OK; 10 virtual seconds later the store (asked through REQ, full battery) answers " +
 	"exactly as after inserting some set of whole script events once each - never partially or twice - and that set is the whole script when j ≤ 2; attempt a+1 begins not earlier than (1s << a) after attempt a failed; " +
@@ -296,10 +301,15 @@ func runRetryBubble(h *bubbleHarness, dir string, rc retryCase, battery []*query
 		}()
 
 		// the fault schedule: in the attempts first..first+J-1 fail the first call of kind Kind.
-		// Attempts are global: the events before the target take one attempt each.
-		first := rc.Target
+		// `first` is fixed at run time: the events before the target are sent first and the
+		// handler is left to settle (10 virtual seconds, quiescent) before the target is sent, so
+		// every attempt from then on belongs to the target or to the events queued behind it.
+		var fmu sync.Mutex
+		first := 1 << 30
 		firedIn := map[int]bool{}
 		plan.ArmFunc(func(ci faultsql.CallInfo) faultsql.Mode {
+			fmu.Lock()
+			defer fmu.Unlock()
 			if rc.J == 0 || ci.Attempt < first || ci.Attempt >= first+rc.J || ci.Kind != rc.Kind || firedIn[ci.Attempt] {
 				return faultsql.ModeNone
 			}
@@ -329,6 +339,23 @@ func runRetryBubble(h *bubbleHarness, dir string, rc retryCase, battery []*query
 
 		// EVENTs
 		for i, n := range sc.evs {
+			if i == rc.Target {
+				if i > 0 {
+					synctest.Wait()
+					time.Sleep(10 * time.Second)
+					synctest.Wait()
+				}
+				begins := 0
+				for _, r := range plan.Records() {
+					if r.Kind == "begin" {
+						begins++
+					}
+				}
+				fmu.Lock()
+				first = begins
+				fmu.Unlock()
+				t0 = time.Now()
+			}
 			if !write(&mocrelay.ClientEventMsg{Event: E(n)}) {
 				viol("C14/retry: handler stopped reading client messages", "EVENT #%d (%s) not taken within 60 virtual seconds", i, n)
 				return
@@ -410,6 +437,9 @@ func runRetryBubble(h *bubbleHarness, dir string, rc retryCase, battery []*query
 			case match < 0:
 				out.Outcome = "no subset"
 				viol("C14/retry: store answers match no set of whole events inserted once (partial or duplicated insertion)", "versus \"every event inserted once\": %s", dFull)
+			case match != full && rc.J <= 2 && rc.J > 0 && retryClaimAtomicOnly:
+				out.Outcome = describe(match)
+				out.Unclaimed++
 			case match != full && rc.J <= 2:
 				out.Outcome = describe(match)
 				viol(fmt.Sprintf("C14/retry: acknowledged event not stored after %d failed attempt(s) (the retry loop makes three)", rc.J), "the store answers as \"%s\"; versus \"every event inserted once\": %s", describe(match), dFull)
@@ -578,6 +608,7 @@ func retryChild() {
 	}
 	dir := args["dir"]
 	full := args["battery"] == "full"
+	retryClaimAtomicOnly = args["claim"] == "atomic"
 	emit := func(v any) {
 		b, _ := json.Marshal(v)
 		fmt.Printf("%s%s\n", retryLinePrefix, b)
@@ -657,6 +688,7 @@ func sqliteRetry(c *vk.Ctx) {
 	infra := func(format string, a ...any) { cleanup(); c.Infra(format, a...) }
 
 	batteryArg := "battery=" + c.Arg("battery", vk.Pick(c, "small", "full"))
+	claimArg := "claim=" + c.Arg("retry_claim", "stored")
 	record := func(res *retryResult, sigSeen map[string]bool) {
 		c.Eval(res.Evals)
 		c.Unclaimed(res.Unclaimed)
@@ -673,7 +705,7 @@ func sqliteRetry(c *vk.Ctx) {
 
 	var rp retryReplay
 	if loadReplay(c, &rp) {
-		lines, _, err := runRetryChild("dir="+dir, "battery=full", "only="+strconv.Itoa(rp.Case.ID))
+		lines, _, err := runRetryChild("dir="+dir, "battery=full", claimArg, "only="+strconv.Itoa(rp.Case.ID))
 		if err != nil {
 			infra("replay: %v", err)
 		}
@@ -691,7 +723,7 @@ func sqliteRetry(c *vk.Ctx) {
 	}
 
 	// the case list (computed by a child, because learning the call kinds needs a bubble)
-	lines, cpu0, err := runRetryChild("dir="+dir, batteryArg, "list=1")
+	lines, cpu0, err := runRetryChild("dir="+dir, batteryArg, claimArg, "list=1")
 	if err != nil || len(lines) != 1 {
 		infra("listing cases: %v (%d lines)", err, len(lines))
 	}
@@ -713,7 +745,7 @@ func sqliteRetry(c *vk.Ctx) {
 	var cpuTotal time.Duration
 	var firstErr error
 	parallel(nshards, nshards, func(i int) {
-		ls, cpu, err := runRetryChild("dir="+dir, batteryArg, "shard="+strconv.Itoa(i), "shards="+strconv.Itoa(nshards))
+		ls, cpu, err := runRetryChild("dir="+dir, batteryArg, claimArg, "shard="+strconv.Itoa(i), "shards="+strconv.Itoa(nshards))
 		mu.Lock()
 		defer mu.Unlock()
 		cpuTotal += cpu
@@ -748,7 +780,7 @@ func sqliteRetry(c *vk.Ctx) {
 			infra("case %d (%s): %s", rc.ID, rc, res.Infra)
 		}
 		done++
-		if rc.J > 0 && res.Fired == 0 {
+		if rc.J > 0 && res.Fired == 0 && len(res.Viols) == 0 {
 			notFired++
 		}
 		record(res, sigSeen)
